@@ -203,11 +203,44 @@ func (c *Conn) loadSession(dest string, hello *clientHelloMsg) (cacheKey string,
 	if !ok || session == nil {
 		return cacheKey, nil
 	}
+	// 会话可能由未启用证书验证的配置创建（共享缓存）。重用前按当前配置重新验证
+	// 会话中记录的服务端证书，验证不通过则丢弃该会话并进行完整握手。
+	if !c.config.InsecureSkipVerify {
+		if err := c.verifySessionCertificates(session.peerCertificates); err != nil {
+			c.config.SessionCache.Put(dest, nil)
+			c.config.SessionCache.Put(hex.EncodeToString(session.sessionId), nil)
+			return "", nil
+		}
+	}
 	// 设置客户端Hello 会话ID
 	hello.sessionId = session.sessionId
 	cacheKey = hex.EncodeToString(session.sessionId)
 
 	return cacheKey, session
+}
+
+// verifySessionCertificates 按当前配置验证会话中记录的服务端证书（签名证书、加密证书）：
+// 证书链、有效期以及（若配置了）服务器名称。
+func (c *Conn) verifySessionCertificates(certs []*x509.Certificate) error {
+	if len(certs) < 2 {
+		return errors.New("tlcp: session has no server certificates")
+	}
+	opts := x509.VerifyOptions{
+		Roots:         c.config.RootCAs,
+		CurrentTime:   c.config.time(),
+		DNSName:       c.config.ServerName,
+		Intermediates: x509.NewCertPool(),
+	}
+	for _, cert := range certs[2:] {
+		opts.Intermediates.AddCert(cert)
+	}
+	if _, err := certs[0].Verify(opts); err != nil {
+		return err
+	}
+	if _, err := certs[1].Verify(opts); err != nil {
+		return err
+	}
+	return nil
 }
 
 // 根据服务端消息选择客户端协议版本
